@@ -522,13 +522,16 @@ class Assembler(CbMixin):
         dest: str
             path to the directory where rebuild will take place.
         """
-        Metadata.set_callback(self._callback)
         self.counter = 0
         self._lastlog = None
         self.contents = contents
         self.dest = dest
         self.meta_paths = metafiles
         self.metafiles = self._get_metafiles()
+        # the metafiles of this assembler report to this assembler (the
+        # callback slot of the class would be taken over by the next one)
+        for meta in self.metafiles:
+            meta.cb = self._callback
         filenames = set()
         for meta in self.metafiles:
             filenames |= meta.filenames
@@ -567,6 +570,7 @@ class Assembler(CbMixin):
         int
             number of files copied
         """
+        self.counter = 0
         for metafile in self.metafiles:
             logger.info("#%s Searching contents for %s", self.counter,
                         metafile.name)
